@@ -308,6 +308,9 @@ func Main(spec Spec) {
 	if v := os.Getenv("VERIF_TIER"); v == "quick" || v == "thorough" {
 		*tier = v
 	}
+	if *tier != "quick" && *tier != "thorough" {
+		*tier = "quick"
+	}
 	if w := os.Getenv("VLIB_WORKER"); w != "" {
 		workerMain(&spec, *tier, w)
 		return
